@@ -296,6 +296,10 @@ func (msg *MessageAuth) FromBytes(src []byte) error {
 	if l < MessageAuthBytesMin {
 		return ErrNotEnoughSourceBytes
 	}
+	// no message is longer than one with the longest user name
+	if l > MessageAuthBytesMax {
+		return ErrIncorrectSourceBytes
+	}
 
 	// the number of chunks: every chunk but the last one is full (a full chunk may also be the last one)
 	p, q := 0, (l+MessageChunkBytesMax+1)/(MessageChunkBytesMax+2)
